@@ -100,6 +100,13 @@ pub fn to_json(s: &[Decision], img: &FsImage) -> Value {
                         json!({ "op": "disk_full", "errno": "ENOSPC", "after_bytes": at })
                     }
                 }
+                Decision::StatFault { at } => {
+                    if *at == crate::world::NO_FAULT {
+                        json!({ "op": "stat_error", "errno": "none" })
+                    } else {
+                        json!({ "op": "stat_error", "errno": "EIO", "at_query": at })
+                    }
+                }
                 Decision::ReadFault { at } => {
                     if *at == crate::world::NO_FAULT {
                         json!({ "op": "read_error", "errno": "none" })
@@ -170,6 +177,11 @@ pub fn from_json(v: &Value, img: &FsImage) -> Result<Vec<Decision>, String> {
             Some("read_error") => {
                 if let Some(at) = e["at_read"].as_u64() {
                     out.push(Decision::ReadFault { at });
+                }
+            }
+            Some("stat_error") => {
+                if let Some(at) = e["at_query"].as_u64() {
+                    out.push(Decision::StatFault { at });
                 }
             }
             Some("disk_full") => {
